@@ -431,7 +431,7 @@ class _Inliner:
             body = body[1:]
         if factory is not None:
             body[0].name = prefix + factory.name  # the closure, defined here under a name of its own
-        retvar = f"_inl{k}_result"
+        retvar = f"_inlret{k}"
         block = InlineBlock(test=ast.Constant(value=True), body=[], orelse=[])
         ast.copy_location(block, call)
         ren = _Renamer(mapping)
